@@ -178,6 +178,7 @@ let model_main file =
         | ["m"; "run"; i] -> apply c ("run " ^ i) (Run (nat_of_int (int_of_string i)))
         | ["m"; "spur"; i] -> apply c ("spur " ^ i) (Spurious (nat_of_int (int_of_string i)))
         | ["m"; "tmo"; i] -> apply c ("tmo " ^ i) (Timeout (nat_of_int (int_of_string i)))
+        | ["m"; "steal"; i] -> apply c ("steal " ^ i) (TimeoutSteal (nat_of_int (int_of_string i)))
         | ["m"; "clock"; v] -> apply c ("clock " ^ v) (Clock (z_of_dec v))
         | ["m"; "rot"; i] -> apply c ("rot " ^ i) (Rotate (nat_of_int (int_of_string i)))
         | ["drain"] -> drain c
@@ -211,6 +212,7 @@ let judge_main file =
 
 (* ---- schedule generation (not part of the tie: only chooses which schedules are run) ----
    gen: reads cases whose last op is  `walk <seed> <steps> <pspur%> <ptmo%>`  or  `enum <depth> <spurs> <tmos> <maxleaves>`
+   (tmos bounds timeouts and timeout-steals together)
    and prints an ops file with explicit moves (one case per walk, one per enumerated maximal schedule). *)
 let blocked_cond w i = match w.ps.st (nat_of_int i) with TCondBlocked (_, _, _) -> true | _ -> false
 let sem_waiting w i = let t = nat_of_int i in
@@ -220,6 +222,12 @@ let timed_of w i =
   match w.ps.st t with
   | TCondBlocked (_, _, Some d) -> Some d
   | TRun -> (match (w.tc t).pc with SemWaitTP d when dl_valid d -> Some d | _ -> None)
+  | _ -> None
+
+(* a timed condition waiter that has been woken and has not yet re-acquired its mutex: candidate of TimeoutSteal *)
+let woken_timed w i =
+  match w.ps.st (nat_of_int i) with
+  | TWoken (_, _, Some d) -> Some d
   | _ -> None
 
 let z_pred x = Z.add x (Zneg XH)
@@ -268,11 +276,24 @@ let gen_main file =
              mv ("m clock " ^ dec_of_z e) (Clock e); mv (Printf.sprintf "m tmo %d" i) (Timeout (nat_of_int i))
            | _ -> ());
           mv ("m clock " ^ dec_of_z tot) (Clock tot); mv (Printf.sprintf "m tmo %d" i) (Timeout (nat_of_int i)) in
-        if r < pspur && bl <> [] then (let i = pick bl in mv (Printf.sprintf "m spur %d" i) (Spurious (nat_of_int i)))
+        let wk = List.filter (fun i -> woken_timed !w i <> None) (ids c) in
+        let do_steal () =
+          let i = pick wk in
+          let d = (match woken_timed !w i with Some d -> d | None -> assert false) in
+          let tot = dl_total d in
+          (match Random.State.int rs 4 with
+           | 0 -> (* one nanosecond early: the steal move must be a no-op *)
+             let e = z_pred tot in
+             mv ("m clock " ^ dec_of_z e) (Clock e); mv (Printf.sprintf "m steal %d" i) (TimeoutSteal (nat_of_int i))
+           | _ -> ());
+          mv ("m clock " ^ dec_of_z tot) (Clock tot); mv (Printf.sprintf "m steal %d" i) (TimeoutSteal (nat_of_int i)) in
+        if wk <> [] && ptmo > 0 && Random.State.int rs 100 < 35 then do_steal ()
+        else if r < pspur && bl <> [] then (let i = pick bl in mv (Printf.sprintf "m spur %d" i) (Spurious (nat_of_int i)))
         else if r < pspur + ptmo && tm <> [] then do_tmo ()
         else if r < pspur + ptmo + 4 then (let q = Random.State.int rs 2 in mv (Printf.sprintf "m rot %d" q) (Rotate (nat_of_int q)))
         else if r < pspur + ptmo + 7 then (let i = pick (ids c) in mv (Printf.sprintf "m run %d" i) (Run (nat_of_int i)))
         else if r < pspur + ptmo + 9 then (let i = pick (ids c) in mv (Printf.sprintf "m tmo %d" i) (Timeout (nat_of_int i)))
+        else if r < pspur + ptmo + 10 then (let i = pick (ids c) in mv (Printf.sprintf "m steal %d" i) (TimeoutSteal (nat_of_int i)))
         else if en <> [] then (let i = pick en in mv (Printf.sprintf "m run %d" i) (Run (nat_of_int i)))
         else if tm <> [] then do_tmo ()
         else if bl <> [] && Random.State.int rs 3 = 0 then (let i = pick bl in mv (Printf.sprintf "m spur %d" i) (Spurious (nat_of_int i)))
@@ -287,6 +308,8 @@ let gen_main file =
     let pre_moves = ref [] in
     List.iter (fun l -> match tokens l with
         | ["m"; "clock"; v] -> pre_moves := l :: !pre_moves; w0 := step !w0 (Clock (z_of_dec v))
+        | ["m"; "run"; i] -> pre_moves := l :: !pre_moves; w0 := step !w0 (Run (nat_of_int (int_of_string i)))
+        | ["m"; "rot"; i] -> pre_moves := l :: !pre_moves; w0 := step !w0 (Rotate (nat_of_int (int_of_string i)))
         | _ -> ()) pre;
     let rec go w acc d sp tm =
       if !leaves < maxleaves then begin
@@ -295,7 +318,8 @@ let gen_main file =
         if d > 0 then begin
           List.iter (fun i -> choices := `R i :: !choices) en;
           if sp > 0 then List.iter (fun i -> if blocked_cond w i || sem_waiting w i then choices := `S i :: !choices) (ids c);
-          if tm > 0 then List.iter (fun i -> if timed_of w i <> None then choices := `T i :: !choices) (ids c)
+          if tm > 0 then List.iter (fun i -> if timed_of w i <> None then choices := `T i :: !choices) (ids c);
+          if tm > 0 then List.iter (fun i -> if woken_timed w i <> None then choices := `X i :: !choices) (ids c)
         end;
         if !choices = [] then (incr leaves; print_case cfg tl (List.rev acc))
         else List.iter (fun ch -> match ch with
@@ -305,7 +329,12 @@ let gen_main file =
               let dd = (match timed_of w i with Some x -> x | None -> assert false) in
               let tot = dl_total dd in
               let w1 = step (step w (Clock tot)) (Timeout (nat_of_int i)) in
-              go w1 (Printf.sprintf "m tmo %d" i :: ("m clock " ^ dec_of_z tot) :: acc) (d - 1) sp (tm - 1))
+              go w1 (Printf.sprintf "m tmo %d" i :: ("m clock " ^ dec_of_z tot) :: acc) (d - 1) sp (tm - 1)
+            | `X i ->
+              let dd = (match woken_timed w i with Some x -> x | None -> assert false) in
+              let tot = dl_total dd in
+              let w1 = step (step w (Clock tot)) (TimeoutSteal (nat_of_int i)) in
+              go w1 (Printf.sprintf "m steal %d" i :: ("m clock " ^ dec_of_z tot) :: acc) (d - 1) sp (tm - 1))
             (List.rev !choices)
       end in
     go !w0 !pre_moves depth spurs tmos in
